@@ -59,6 +59,12 @@ Theorem C13_elapsed_max : forall clk w t m c e,
 Proof. exact elapsed_max. Qed.
 Print Assumptions C13_elapsed_max.
 
+(* ... and the literal statement for EVERY maximum is false (zone: maximum < 0, where it contradicts
+   C13_elapsed_nonneg; the implementation answers 0) *)
+Theorem C13_elapsed_max_literal_refuted : ~ C13_elapsed_max_full_statement.
+Proof. exact elapsed_max_literal_refuted. Qed.
+Print Assumptions C13_elapsed_max_literal_refuted.
+
 (* leftover = max(0, duration - elapsed) with elapsed taken at the same clock reading; without a
    duration: None when return_none, RuntimeError (watch and clock untouched) otherwise *)
 Theorem C13_leftover_spec : forall clk w t return_none,
@@ -230,3 +236,33 @@ Theorem C13_stopped_at_is_last_stop : forall clk ops1 o ops2 w0 t0,
   w_stopped (fst (final clk (ops1 ++ o :: ops2) w0 t0)) = Some (clk (snd c1)).
 Proof. exact stopped_at_is_last_stop. Qed.
 Print Assumptions C13_stopped_at_is_last_stop.
+
+(* ---- second instantiation: the arithmetic of the theorems above does not rest on clock readings being
+   integers.  For every ordered abelian group (T, zero, sub, leb) the source's _delta_seconds / maximum /
+   leftover / expired formulas (Model/C13_Abstract.v) satisfy: elapsed >= 0; elapsed = later - earlier for ordered
+   readings; elapsed is monotone in "now" (non-decreasing splits); elapsed(maximum) >= 0 and <= a non-negative
+   maximum; leftover >= 0; expired <-> not (elapsed <= duration); expired -> leftover = 0.
+   Z with the model's functions is one instance. ---- *)
+Require Import OV.Model.C13_Abstract OV.Proofs.C13_Abstract.
+
+Theorem C13_arithmetic_in_every_ordered_group : forall T zero sub leb,
+  ordered_group T zero sub leb ->
+  (forall a b, leb zero (g_delta T zero sub leb a b) = true) /\
+  (forall a b, leb a b = true -> g_delta T zero sub leb a b = sub b a) /\
+  (forall s a b, leb a b = true -> leb (g_delta T zero sub leb s a) (g_delta T zero sub leb s b) = true) /\
+  (forall m e, leb zero e = true -> leb zero (g_clamp_max T zero leb m e) = true) /\
+  (forall m e, leb zero m = true -> leb (g_clamp_max T zero leb (Some m) e) m = true) /\
+  (forall d e, leb zero (g_leftover T zero sub leb d e) = true) /\
+  (forall d e, g_expired T leb d e = true <-> leb e d = false) /\
+  (forall d e, leb zero d = true -> g_expired T leb d e = true -> g_leftover T zero sub leb d e = zero).
+Proof. exact abstract_arithmetic. Qed.
+Print Assumptions C13_arithmetic_in_every_ordered_group.
+
+Theorem C13_Z_is_an_ordered_group_instance :
+  ordered_group Z 0 Z.sub Z.leb /\
+  (forall a b, g_delta Z 0 Z.sub Z.leb a b = delta a b) /\
+  (forall m e, g_clamp_max Z 0 Z.leb m e = clamp_max m e) /\
+  (forall d e, g_leftover Z 0 Z.sub Z.leb d e = Z.max 0 (d - e)) /\
+  (forall d e, g_expired Z Z.leb d e = (e >? d)).
+Proof. exact Z_instance_summary. Qed.
+Print Assumptions C13_Z_is_an_ordered_group_instance.
